@@ -12,6 +12,7 @@ import (
 	"path/filepath"
 	"testing"
 	"testing/synctest"
+	"time"
 
 	fingerproxy "github.com/wi1dcard/fingerproxy"
 	"github.com/wi1dcard/fingerproxy/pkg/certwatcher"
@@ -195,6 +196,9 @@ func errorReportCase(t *testing.T, rep *ev.Report, mat *certenv.Material, tmp st
 			}
 		}
 		queue <- item{}
+		synctest.Wait()
+		// no deadline in the statement: timers of the implementation (debounce, retry) get their time
+		time.Sleep(30 * time.Second)
 		synctest.Wait()
 		rep.Add("error_report_cases", 1)
 		rep.Add("evaluations", 1)
